@@ -40,6 +40,31 @@ def fault(stage, when):
     if stage is None:
         yield
         return
+    if stage.startswith("write-"):
+        # an I/O failure INSIDE a stage: the k-th file write of the run (FileManager.write_file / Path.write_text) fails, so that the emitters' own
+        # error handling runs (the stage-level faults above replace a whole stage and never reach it)
+        import pathlib
+        from pyopenapi_gen.context.file_manager import FileManager
+        k, count = int(stage.split("-")[1]), [0]
+        o1, o2 = FileManager.write_file, pathlib.Path.write_text
+
+        def w1(self, path, content, *a, **kw):
+            count[0] += 1
+            if count[0] == k:
+                raise Injected(stage)
+            return o1(self, path, content, *a, **kw)
+
+        def w2(self, *a, **kw):
+            count[0] += 1
+            if count[0] == k:
+                raise Injected(stage)
+            return o2(self, *a, **kw)
+        FileManager.write_file, pathlib.Path.write_text = w1, w2
+        try:
+            yield
+        finally:
+            FileManager.write_file, pathlib.Path.write_text = o1, o2
+        return
     _, name, meth = next(s for s in STAGES if s[0] == stage)
     if meth is None:
         orig = getattr(cg, name)
@@ -160,6 +185,7 @@ def bounded_fault_injection(tier, seed):
                         stages = [(None, None)] + [(s[0], w) for s in STAGES for w in ("before", "after")]
                         if tier == "quick" and not (name == "two-tags" and li < 2):
                             stages = [(None, None)] + [(s[0], "after") for s in STAGES]
+                        stages = stages + [(f"write-{k}", "at") for k in ((1, 4, 9, 15, 22, 30, 40) if tier == "quick" else range(1, 70, 2))]
                         for stage, when in stages:
                             if stage == "postprocess":
                                 continue  # post-processing is exercised separately below (it is skipped in these runs)
@@ -185,7 +211,7 @@ def bounded_fault_injection(tier, seed):
                                 if changed:
                                     fail(f"bounded:noforce-touched:{existing}:{tag}", f"{name} [{lay}] existing={existing} fault={tag}: non-force run changed {changed[:6]}", inp)
                                 reached = stage is None or isinstance(e, Injected) or e is not None
-                                if stage is not None and e is None and not (stage == "diff" and False):
+                                if stage is not None and not stage.startswith("write-") and e is None:
                                     fail(f"bounded:noforce-swallowed-failure:{tag}", f"{name} [{lay}] existing={existing}: a failure injected at {tag} did not make the run raise", inp)
                                 if stage is None and existing == "equal" and e is not None:
                                     fail("bounded:noforce-equal-fails", f"{name} [{lay}]: up-to-date tree, non-force run raised {type(e).__name__}: {str(e)[:100]}", inp)
